@@ -11,7 +11,7 @@ if os.path.exists(p):
     os.rename(p, p + ".old")
 try:
     m = Model(None)
-    out = {q: Model.fingerprint(f) for q, f in sorted(m.functions.items())
+    out = {q: {"fp": Model.fingerprint(f), "arity": Model.arity(f), "params": Model.param_names(f), "sketch": Model.sketch(f)} for q, f in sorted(m.functions.items())
            if q.startswith("y0.") and f.node.name.startswith("_") and not f.node.name.startswith("__")}
     json.dump(out, open(p, "w"), indent=0, sort_keys=True)
     print(len(out), "private routines recorded")
